@@ -31,7 +31,13 @@ RULE = ("purity: every call of the catalogue (VE/BP/CausalInference queries incl
         "map_query / map_query(all) / max_marginal; evidence; virtual evidence) then a final question, vs a fresh "
         "engine, vs the Coq engine model, vs the reference posterior.  repr: each (network, question) is asked under "
         "a random variable renaming, state renaming + re-listing, insertion order, EVERY hash seed of the tier and "
-        "numpy/torch; all must equal the exact reference posterior.  Non-trivial: network has >=1 edge and the "
+        "numpy/torch; all must equal the exact reference posterior.  history chains: half of the sequences are built "
+        "from RELATED questions (same query set + hard evidence with other soft-evidence probabilities, same node set "
+        "with query/evidence roles re-split, same evidence variables in other states, exact repeats, query<->map) and "
+        "EVERY answer of a sequence is compared with a fresh engine and the extracted model.  datarepr: scores, "
+        "HillClimbSearch (cache on/off), ExhaustiveSearch, TreeSearch, fit on sampled data with string column names vs "
+        "mixed-type / other-string / int / tuple names (results compared up to the renaming; pandas' own label "
+        "limitation for all-int and tuple labels is diagnosed and skipped).  Non-trivial: network has >=1 edge and the "
         "question has an eliminated or observed variable; distinct = distinct (stream, call, network, question, "
         "representation)")
 TRUSTED_BASE = ["deep snapshots compare graph nodes/edges/latents, CPD scopes/cardinalities/values/state names, "
@@ -188,6 +194,8 @@ def gen_virt(rng, net, exclude):
     return out
 
 
+DATA_CALLS = ["score_k2", "score_bdeu", "score_bic", "hc_k2_cache", "hc_k2_nocache", "hc_equiv", "exhaustive",
+              "tree", "fit_mle", "fit_bayes"]
 PURITY_CALLS = [
     "ve_query", "ve_query_virt", "ve_map", "ve_map_virt", "ve_maxmarg", "ve_query_order",
     "bp_calibrate", "bp_query", "bp_query_virt", "bp_map", "ci_query",
@@ -225,18 +233,51 @@ def cases(tier, seed):
                                  else ("str" if datacall else None)),
                           states=(rng.choice(["str", "default"]) if sampling or call.startswith("write") else None))
             out.append({"kind": "purity", "call": call, "net": net, "rep": rep, "qseed": rng.randint(0, 10**9)})
-    # ---- history
-    nh = 60 if tier == "quick" else 400
-    for _ in range(nh):
+    # ---- history: half random sequences, half chains of deliberately RELATED questions
+    nh = 80 if tier == "quick" else 500
+    for k in range(nh):
         n = rng.randint(2, 5)
         bp = rng.random() < 0.45
-        net = gen_connected_net(rng, n, p=rng.choice([0.5, 0.8])) if bp else gen_net(rng, n, p=rng.choice([0.4, 0.6, 0.8]))
+        net = gen_connected_net(rng, n, p=rng.choice([0.5, 0.8])) if (bp or k % 2) else \
+            gen_net(rng, n, p=rng.choice([0.4, 0.6, 0.8]))
         rep = gen_rep(rng, net)
         hist = []
-        for _ in range(rng.randint(1, 5)):
-            hist.append(gen_q(rng, net, final=False))
-        out.append({"kind": "history", "net": net, "rep": rep, "bp": bp, "hist": hist,
-                    "final": gen_q(rng, net, final=True)})
+        if k % 2 == 0:
+            for _ in range(rng.randint(1, 5)):
+                hist.append(gen_q(rng, net, final=False))
+            final = gen_q(rng, net, final=True)
+        else:
+            first = gen_q(rng, net, final=False, want_ev=True)
+            hist.append(first)
+            # P(child | parent) prunes the parent's own ancestors away; the re-split P(parent | child) needs them
+            grand = [(u, v) for u, v in net["edges"] if net["cpt"][u]["parents"]]
+            if grand and rng.random() < 0.6:
+                u, v = rng.choice(grand)
+                e1 = [[u, rng.randrange(net["cards"][u])]]
+                e2 = [[v, rng.randrange(net["cards"][v])]]
+                if prob_evidence(net, e1) > 0 and prob_evidence(net, e2) > 0:
+                    op = rng.choice(["query", "query", "map"])
+                    hist = [{"op": op, "Q": [v], "ev": e1, "virt": None},
+                            {"op": op, "Q": [u], "ev": e2, "virt": None}]
+            for _ in range(rng.randint(1, 4)):
+                hist.append(gen_related(rng, net, rng.choice(hist)) if rng.random() < 0.85
+                            else gen_q(rng, net, final=False))
+            final = gen_related(rng, net, rng.choice(hist))
+        out.append({"kind": "history", "net": net, "rep": rep, "bp": bp, "hist": hist, "final": final,
+                    "related": k % 2})
+    # ---- data-based calls under renamings of the columns (string baseline vs renamed)
+    nd = 3 if tier == "quick" else 14
+    for call in DATA_CALLS:
+        for r in range(nd):
+            n = rng.randint(3, 4 if call.startswith("exh") else 5)
+            net = gen_connected_net(rng, n, p=rng.choice([0.5, 0.8]))
+            style = rng.choice(["mixed", "mixed", "mixed", "str2", "int", "tuple"]) if r else "mixed"
+            c = {"kind": "datarepr", "call": call, "net": net, "style": style,
+                 "dseed": rng.randint(0, 10**9), "nrows": rng.choice([150, 300, 600])}
+            out.append(c)
+            if call == "hc_equiv":   # ties of a score-equivalent score: also under every hash seed, mixed + str2
+                for hs in seeds:
+                    out.append(dict(c, style=rng.choice(["mixed", "str2"]), hashseed=hs))
     # ---- representation independence: one (net, question) x every hash seed x random representation x backend
     nr = 40 if tier == "quick" else 300
     for _ in range(nr):
@@ -261,19 +302,52 @@ def cases(tier, seed):
     return out
 
 
-def gen_q(rng, net, final):
+def gen_q(rng, net, final, want_ev=False):
     r = rng.random()
     size = 1
     for c in net["cards"]:
         size *= c
     # map_query(variables=None): the model's answer is the full joint table, keep it small
-    if r < (0.12 if size <= 36 else 0.0) or (size <= 12 and r < 0.3):
+    if not want_ev and (r < (0.12 if size <= 36 else 0.0) or (size <= 12 and r < 0.3)):
         return {"op": "map_all", "Q": None, "ev": [], "virt": None}
     Q, ev = gen_question(rng, net)
-    op = rng.choice(["query", "query", "map", "maxmarg"] if not final else ["query", "query", "map"])
+    for _ in range(8):
+        if not want_ev or ev or len(Q) == net["n"]:
+            break
+        Q, ev = gen_question(rng, net)
+    op = rng.choice(["query", "query", "map", "maxmarg"] if not (final or want_ev) else ["query", "query", "map"])
     virt = None
     if op != "maxmarg" and rng.random() < (0.2 if final else 0.4):
         virt = gen_virt(rng, net, set(Q) | {v for v, _ in ev})
+    return {"op": op, "Q": Q, "ev": ev, "virt": virt}
+
+
+def gen_related(rng, net, prev):
+    """a question deliberately related to an earlier one of the same engine"""
+    if prev["Q"] is None or prev["op"] == "maxmarg":
+        return gen_q(rng, net, final=True)
+    Q, ev, virt = list(prev["Q"]), [list(x) for x in prev["ev"]], prev["virt"]
+    op = prev["op"] if rng.random() < 0.7 else rng.choice(["query", "map"])
+    mode = rng.choice(["repeat", "virt_probs", "virt_probs", "resplit", "resplit", "resplit", "ev_states", "ev_states"])
+    if mode == "virt_probs":
+        # same query set and hard evidence, the same soft-evidence VARIABLES, other probabilities
+        if virt:
+            virt = [[v, [_fr(Fraction(rng.randint(1, 15), 16)) for _ in e]] for v, e in virt]
+        else:
+            virt = gen_virt(rng, net, set(Q) | {v for v, _ in ev})
+    elif mode == "resplit":
+        # the same node set with the query / evidence roles split differently
+        nodes = Q + [v for v, _ in ev]
+        rng.shuffle(nodes)
+        k = rng.randint(1, min(2, len(nodes)))
+        Q2, ev2 = nodes[:k], [[v, rng.randrange(net["cards"][v])] for v in nodes[k:]]
+        if sorted(Q2) != sorted(Q) and prob_evidence(net, ev2) > 0:
+            Q, ev = Q2, ev2
+            virt = virt if virt and rng.random() < 0.5 else None
+    elif mode == "ev_states":
+        ev2 = [[v, rng.randrange(net["cards"][v])] for v, _ in ev]
+        if prob_evidence(net, ev2) > 0:
+            ev = ev2
     return {"op": op, "Q": Q, "ev": ev, "virt": virt}
 
 
@@ -580,6 +654,8 @@ def run_case(case, drv):
             return run_repr(case, drv)
         if k == "factor":
             return run_factor(case, drv)
+        if k == "datarepr":
+            return run_datarepr(case, drv)
     finally:
         if not backend_clean():
             from pgmpy import config
@@ -814,116 +890,99 @@ def canon_answer(b, net, ans):
     return ans
 
 
+def same_answer(x, y):
+    if x[0] != y[0]:
+        return False
+    if x[0] == "table":
+        return x[1] == y[1] and cmp_tables(x[2], y[2], 1e-12) is None
+    if x[0] == "scalar":
+        return common.approx(x[1], y[1], 1e-12)
+    return x[1:] == y[1:]
+
+
 def run_history(case, drv):
+    """EVERY question of the sequence is answered by the shared engine, by a fresh engine and by the
+    extracted engine model (with the history so far); all three must agree, and the engine must stay bound
+    to the model it was created on."""
     from pgmpy.inference import VariableElimination, BeliefPropagation
 
     net, rep, bp = case["net"], case["rep"], case["bp"]
-    hist, final = case["hist"], case["final"]
-    tags = ["history", "engine=" + ("bp" if bp else "ve"), "len=%d" % len(hist), "final=" + final["op"],
-            "virt-in-history=%d" % int(any(q["virt"] for q in hist)), "virt-in-final=%d" % int(bool(final["virt"]))]
-    key = common.canon_key(["history", net, rep, bp, hist, final])
+    seq = list(case["hist"]) + [case["final"]]
+    final = case["final"]
+    tags = ["history", "engine=" + ("bp" if bp else "ve"), "len=%d" % len(seq), "final=" + final["op"],
+            "related=%d" % int(case.get("related", 0)),
+            "virt-questions=%d" % sum(1 for q in seq if q["virt"])]
+    key = common.canon_key(["history", net, rep, bp, seq])
     nontriv = bool(net["edges"]) or case.get("witness", False)
     Eng = BeliefPropagation if bp else VariableElimination
     b = build(net, rep)
-    caller_model = b.model
-    w = Watch(model=caller_model)
-    eng = Eng(caller_model)
+    w = Watch(model=b.model)
+    eng = Eng(b.model)
     nodes0 = sorted(repr(x) for x in eng.model.nodes())
-    for q in hist:
-        qw = Watch(ev=ev_dict(b, q["ev"]))
-        try:
-            do_question(eng, b, net, q)
-        except Exception as e:
-            return bad("impl-exception", {"where": "history", "q": q, "exc": repr(e)[:300]}, key=key, tags=tags)
-    if w.diff():
-        return bad("mutated-argument", {"call": "engine history", "changed": ["caller's model"]}, key=key, tags=tags)
-    try:
-        a_h = canon_answer(b, net, do_question(eng, b, net, final))
-        b2 = build(net, rep)
-        a_f = canon_answer(b2, net, do_question(Eng(b2.model), b2, net, final))
-        a_2 = canon_answer(b, net, do_question(eng, b, net, final))  # the same question twice
-    except Exception as e:
-        return bad("impl-exception", {"where": "final", "q": final, "exc": repr(e)[:300]}, key=key, tags=tags)
-    nodes1 = sorted(repr(x) for x in eng.model.nodes())
-    # ---- correspondence with the Coq engine model (models the code as it is, residue included)
     nb = net["n"]
-    hw = [q_wire(dict(q, bp=bp)) for q in hist]
-    mod = drv.call("c16_history", [nb, net["cards"], model_factors(net), hw, q_wire(dict(final, bp=bp))])
-    m_scope, m_tab, m_after, m_before = mod[0], [common.frac(x) for x in mod[1]], mod[2], mod[3]
+    hw = [q_wire(dict(q, bp=bp)) for q in seq]
 
     def mname(v):
         return repr(b.names[v]) if v < nb else repr("__" + str(b.names[v - nb]))
 
-    virt_hist = [q for q in hist if q["virt"]]
-    leaves_before = [v for v in m_before if v >= nb]
-    if sorted(mname(v) for v in m_after) != nodes1:
-        return bad("impl!=model", {"what": "nodes of engine.model after the history", "impl": nodes1,
-                                   "model": sorted(mname(v) for v in m_after)}, key=key, tags=tags)
-    # model answer as a posterior table: compare with pgmpy's answer after history
-    mcards = [net["cards"][v] if v < nb else 2 for v in m_scope]
-    mtable = {}
-    for kx, idx in enumerate(itertools.product(*[range(c) for c in mcards])):
-        mtable[idx] = m_tab[kx]
-    err = None
-    if a_h[0] == "table":
-        Qs = a_h[1]
-        want = {}
-        for idx, p in mtable.items():
-            kk = tuple(idx[m_scope.index(q)] for q in Qs)
-            want[kk] = want.get(kk, 0) + p
-        err = cmp_tables(a_h[2], want, TOL)
-    elif a_h[0] == "map":
-        got = {}
-        for v, s in a_h[1].items():
-            if isinstance(v, int):
-                got[v] = s
-            else:  # "__X" node: state 0/1 printed as repr
-                x = [i for i in range(nb) if repr("__" + str(b.names[i])) == v]
-                got[nb + x[0]] = int(s)
-        if set(got) != set(m_scope):
-            err = "map scope %r, model scope %r" % (sorted(got), sorted(m_scope))
-        else:
-            kk = tuple(got[v] for v in m_scope)
-            if not common.approx(float(mtable[kk]), float(max(mtable.values())), 1e-9):
-                err = "map assignment is not a mode of the model's table"
-    if err:
-        return bad("impl!=model", {"what": "answer after history", "err": err}, key=key, tags=tags)
-    # ---- the property: same answer twice, and the same as a fresh engine
-    def same(x, y):
-        if x[0] != y[0]:
-            return False
-        if x[0] == "table":
-            return x[1] == y[1] and cmp_tables(x[2], y[2], 1e-12) is None
-        if x[0] == "scalar":
-            return common.approx(x[1], y[1], 1e-12)
-        return x[1:] == y[1:]
-
-    residue = nodes1 != nodes0
-    res_expected = sorted(set(nodes1) - set(nodes0))
-    only_virt_residue = residue and all(r.startswith("'__") for r in res_expected) and \
-        (bool(virt_hist) or bool(final["virt"]))
-    if not same(a_h, a_2):
-        if not (final["op"] == "map" and map_tie(a_h, a_2, mtable, m_scope)):
-            return bad("not-repeatable", {"first": str(a_h)[:400], "second": str(a_2)[:400]}, key=key, tags=tags)
-    if not same(a_h, a_f):
-        # diagnosed class: map_query(variables=None) reads the node list of self.model, which still holds the
-        # "__X" nodes of an earlier virtual-evidence question
-        if final["op"] == "map_all" and leaves_before and virt_hist:
-            return bad("history-dependent-answer",
-                       {"final": final, "with_history": str(a_h)[:300], "fresh": str(a_f)[:300],
-                        "engine_nodes": nodes1}, finding=VIRT_KEY, key=key, tags=tags + ["diag:map_all-after-virtual"])
-        if final["op"] in ("map", "map_all") and a_h[0] == "map" and a_f[0] == "map" and set(a_h[1]) == set(a_f[1]) \
-                and map_tie(a_h, a_f, mtable, m_scope):
-            pass
-        else:
-            return bad("history-dependent-answer", {"final": final, "with_history": str(a_h)[:300],
-                                                    "fresh": str(a_f)[:300]}, key=key, tags=tags)
-    if residue:
-        if only_virt_residue:
-            return bad("engine-model-residue", {"before": nodes0, "after": nodes1,
-                                                "note": "engine.model is rebound to an augmented copy holding __X nodes"},
-                       finding=VIRT_KEY, key=key, tags=tags + ["diag:engine-residue"])
-        return bad("engine-model-residue", {"before": nodes0, "after": nodes1}, key=key, tags=tags)
+    for i, q in enumerate(seq):
+        where = {"step": i, "of": len(seq), "q": q}
+        try:
+            a_h = canon_answer(b, net, do_question(eng, b, net, q))
+            b2 = build(net, rep)
+            a_f = canon_answer(b2, net, do_question(Eng(b2.model), b2, net, q))
+            a_2 = canon_answer(b, net, do_question(eng, b, net, q)) if i == len(seq) - 1 else None
+        except Exception as e:
+            return bad("impl-exception", dict(where, exc=repr(e)[:300]), key=key, tags=tags)
+        nodes1 = sorted(repr(x) for x in eng.model.nodes())
+        # ---- correspondence with the Coq engine model, given the history so far
+        mod = drv.call("c16_history", [nb, net["cards"], model_factors(net), hw[:i], hw[i]])
+        m_scope, m_tab, m_after = mod[0], [common.frac(x) for x in mod[1]], mod[2]
+        if sorted(mname(v) for v in m_after) != nodes1:
+            return bad("engine-model-residue" if nodes1 != nodes0 else "impl!=model",
+                       dict(where, what="nodes of engine.model after the question", impl=nodes1,
+                            model=sorted(mname(v) for v in m_after)), key=key, tags=tags)
+        mcards = [net["cards"][v] if v < nb else 2 for v in m_scope]
+        mtable = {}
+        for kx, idx in enumerate(itertools.product(*[range(c) for c in mcards])):
+            mtable[idx] = m_tab[kx]
+        err = None
+        if a_h[0] == "table":
+            Qs = a_h[1]
+            want = {}
+            for idx, p in mtable.items():
+                kk = tuple(idx[m_scope.index(v)] for v in Qs)
+                want[kk] = want.get(kk, 0) + p
+            err = cmp_tables(a_h[2], want, TOL)
+        elif a_h[0] == "map":
+            got = {}
+            for v, st in a_h[1].items():
+                if isinstance(v, int):
+                    got[v] = st
+                else:  # a "__X" node: state 0/1 printed as repr
+                    x = [j for j in range(nb) if repr("__" + str(b.names[j])) == v]
+                    got[nb + x[0] if x else v] = int(st)
+            if set(got) != set(m_scope):
+                err = "map scope %r, model scope %r" % (sorted(map(str, got)), sorted(m_scope))
+            else:
+                kk = tuple(got[v] for v in m_scope)
+                if not common.approx(float(mtable[kk]), float(max(mtable.values())), 1e-9):
+                    err = "map assignment %r is not a mode of the model's table" % (kk,)
+        if err:
+            return bad("impl!=model", dict(where, what="answer of the shared engine", err=err), key=key, tags=tags)
+        # ---- the property: the same as a fresh engine; the same when asked again
+        if not same_answer(a_h, a_f):
+            if not (a_h[0] == "map" and a_f[0] == "map" and set(a_h[1]) == set(a_f[1])
+                    and map_tie(a_h, a_f, mtable, m_scope)):
+                return bad("history-dependent-answer", dict(where, with_history=str(a_h)[:300], fresh=str(a_f)[:300]),
+                           key=key, tags=tags)
+        if a_2 is not None and not same_answer(a_h, a_2):
+            if not (a_h[0] == "map" and map_tie(a_h, a_2, mtable, m_scope)):
+                return bad("not-repeatable", dict(where, first=str(a_h)[:300], second=str(a_2)[:300]), key=key, tags=tags)
+        if nodes1 != nodes0:
+            return bad("engine-model-residue", dict(where, before=nodes0, after=nodes1), key=key, tags=tags)
+    if w.diff():
+        return bad("mutated-argument", {"call": "engine history", "changed": ["caller's model"]}, key=key, tags=tags)
     return ok(nontriv, key, tags)
 
 
@@ -1313,3 +1372,145 @@ def net_do(net, x):
     n2["cpt"][x] = {"parents": [], "flat": [[1, k] for _ in range(k)]}
     n2["edges"] = [e for e in net["edges"] if e[1] != x]
     return n2
+
+
+# ------------------------------------------------------------------- data-based calls under column renamings
+SORTED_KEY = "mixed-type-names-sorted"
+
+
+def renamed_columns(style, n):
+    if style == "mixed":   # mixed, mutually non-comparable types (as accepted by pandas for every score)
+        pool = [0, "b", 2, "d", 4.5, "f", 6]
+    elif style == "str2":
+        pool = ["zeta", "Y", "x_1", "w w", "v", "u", "T"]
+    elif style == "int":
+        pool = [13, 11, 10, 12, 15, 14, 16]
+    else:
+        pool = [("v", i) for i in range(7)]
+    return pool[:n]
+
+
+def pandas_limitation(exc, style):
+    """the documented pandas limitation: all-numeric column labels are taken for level NUMBERS by
+    Series.unstack (ValueError 'truth value of an array ...' from pandas.core.reshape), and tuple labels are
+    taken for multi-keys by DataFrame.loc (KeyError 'None of [Index([...' )"""
+    r = repr(exc)
+    if style == "int" and isinstance(exc, ValueError) and "truth value of an array" in r:
+        return True
+    if style == "tuple" and isinstance(exc, KeyError) and "None of [Index(" in r:
+        return True
+    return False
+
+
+def run_datarepr(case, drv):
+    import numpy as np
+    import pandas as pd
+    from pgmpy.models import BayesianNetwork
+    from pgmpy.estimators import (K2Score, BDeuScore, BicScore, HillClimbSearch, ExhaustiveSearch, TreeSearch,
+                                  MaximumLikelihoodEstimator, BayesianEstimator)
+
+    call, net, style = case["call"], case["net"], case["style"]
+    n = net["n"]
+    rng = random.Random(case["dseed"])
+    rows = sample_rows(rng, net, case["nrows"])
+    tags = ["datarepr", "call=" + call, "style=" + style]
+    key = common.canon_key(["datarepr", call, net, style, case["dseed"], case["nrows"]])
+    base_names = ["V%d" % i for i in range(n)]
+    new_names = renamed_columns(style, n)
+    pshuffle = [list(net["cpt"][i]["parents"]) for i in range(n)]
+    for ps in pshuffle:
+        rng.shuffle(ps)
+    equiv = rng.choice(["bic", "bdeu"])
+
+    def run(names):
+        df = pd.DataFrame({i: [r[i] for r in rows] for i in range(n)})
+        df.columns = pd.Index(names, tupleize_cols=False)
+        inv = {nm: i for i, nm in enumerate(names)}
+        w = Watch(data=df)
+
+        def edges(dag):
+            return sorted((inv[u], inv[v]) for u, v in dag.edges())
+
+        def structure():
+            m = BayesianNetwork()
+            m.add_nodes_from(names)
+            m.add_edges_from([(names[u], names[v]) for u, v in net["edges"]])
+            return m
+
+        if call.startswith("score_"):
+            S = {"score_k2": K2Score, "score_bdeu": BDeuScore, "score_bic": BicScore}[call]
+            sc = S(df)
+            res = [float(sc.score(structure()))] + \
+                  [float(sc.local_score(names[i], [names[q] for q in pshuffle[i]])) for i in range(n)]
+        elif call in ("hc_k2_cache", "hc_k2_nocache"):
+            est = HillClimbSearch(df, use_cache=(call == "hc_k2_cache"))
+            res = edges(est.estimate(scoring_method=K2Score(df), max_indegree=3, show_progress=False))
+        elif call == "hc_equiv":
+            est = HillClimbSearch(df, use_cache=True)
+            dag = est.estimate(scoring_method=equiv, max_indegree=3, show_progress=False)
+            S = BicScore if equiv == "bic" else BDeuScore
+            res = (edges(dag), float(S(df).score(dag)))
+        elif call == "exhaustive":
+            best = ExhaustiveSearch(df, scoring_method=K2Score(df)).estimate()
+            res = float(K2Score(df).score(best))
+        elif call == "tree":
+            res = edges(TreeSearch(df, root_node=names[0]).estimate(estimator_type="chow-liu", show_progress=False))
+        else:
+            m = structure()
+            if call == "fit_mle":
+                m.fit(df, estimator=MaximumLikelihoodEstimator)
+            else:
+                m.fit(df, estimator=BayesianEstimator, prior_type="BDeu", equivalent_sample_size=4)
+            res = {}
+            for cpd in m.get_cpds():
+                f = cpd.to_factor()
+                vals = np_values(f.values)
+                for idx in itertools.product(*[range(x) for x in vals.shape]):
+                    kk = tuple(sorted((inv[v], int(float(f.state_names[v][idx[ax]]))) for ax, v in enumerate(f.variables)))
+                    res[(inv[cpd.variable],) + kk] = float(vals[idx])
+        ch = w.diff()
+        if ch:
+            raise AssertionError("mutated-argument:" + ",".join(ch))
+        return res
+
+    try:
+        want = run(base_names)
+    except AssertionError as e:
+        return bad("mutated-argument", {"call": call, "what": str(e)}, key=key, tags=tags)
+    except Exception as e:
+        return bad("impl-exception", {"call": call, "names": "str", "exc": repr(e)[:300]}, key=key, tags=tags)
+    try:
+        got = run(new_names)
+    except AssertionError as e:
+        return bad("mutated-argument", {"call": call, "what": str(e)}, key=key, tags=tags)
+    except Exception as e:
+        if pandas_limitation(e, style):
+            return ok(False, key, tags + ["skip:pandas-label-limitation"])
+        fk = None
+        if style == "mixed" and isinstance(e, TypeError) and "'<' not supported between instances" in repr(e) \
+                and call in ("exhaustive", "fit_mle", "fit_bayes"):
+            # diagnosed class: ExhaustiveSearch.all_dags / estimator state counts sort the node names
+            fk = SORTED_KEY
+        return bad("renaming-raises", {"call": call, "style": style, "names": [repr(x) for x in new_names],
+                                       "exc": repr(e)[:300]}, finding=fk, key=key, tags=tags + ["diag:renaming-raises"])
+
+    def close(x, y):
+        if isinstance(x, float):
+            return common.approx(x, y, 1e-9)
+        if isinstance(x, dict):
+            return set(x) == set(y) and all(common.approx(x[k], y[k], 1e-9) for k in x)
+        if isinstance(x, (list, tuple)) and x and isinstance(x[0], float):
+            return len(x) == len(y) and all(common.approx(a, c, 1e-9) for a, c in zip(x, y))
+        return x == y
+
+    if call == "hc_equiv":
+        # repaired in /repo (d77f396): candidate operations are enumerated in column order, and a renaming keeps
+        # the column ORDER, so the learned DAG and its total score must be equal up to the renaming
+        if got[0] != want[0] or not common.approx(got[1], want[1], 1e-9):
+            return bad("renaming-changes-answer", {"call": call, "score": equiv, "string_names": str(want)[:300],
+                                                   "renamed": str(got)[:300], "style": style},
+                       key=key, tags=tags + ["diag:hc-tie-order"])
+    elif not close(got, want):
+        return bad("renaming-changes-answer", {"call": call, "style": style, "string_names": str(want)[:400],
+                                               "renamed": str(got)[:400]}, key=key, tags=tags)
+    return ok(True, key, tags)
